@@ -21,7 +21,7 @@ structure CoversDicts (D : Defs) (fmt : List Dir) (op : OpInst) : Prop where
     ∃ d ∈ allS fmt, coversS D isProp n d = true
 
 theorem soundDir_exec (D : Defs) (op : OpInst) (fmt : List Dir) (K : List Cls)
-    (hwf : wfD fmt K = true) (hv : ValidD op fmt) (hc : CoversDicts D fmt op) :
+    (hwf : wfD fmt K = true) (hv : ValidD D op fmt) (hc : CoversDicts D fmt op) :
     ∀ d ∈ execS op fmt, soundDir op d := by
   have hdict : ∀ d ∈ allS fmt, ∀ w res exp, d = SDir.attrDict w res exp → soundDir op d := by
     intro d hd w res exp he
@@ -87,7 +87,7 @@ structure Equiv (D : Defs) (a b : OpInst) : Prop where
   attrs : ∀ n, normGet D.attrDefaults a.attrs n = normGet D.attrDefaults b.attrs n
 
 theorem dicts_replayD (D : Defs) (op : OpInst) (fmt : List Dir) (K : List Cls)
-    (hwf : wfD fmt K = true) (hv : ValidD op fmt) (hc : CoversDicts D fmt op) :
+    (hwf : wfD fmt K = true) (hv : ValidD D op fmt) (hc : CoversDicts D fmt op) :
     (∀ n, normGet D.propDefaults (replayD D op fmt {}).props n = normGet D.propDefaults op.props n) ∧
     (∀ n, normGet D.attrDefaults (replayD D op fmt {}).attrs n = normGet D.attrDefaults op.attrs n) := by
   have hdp := dp_replayD D op fmt {}
